@@ -3,7 +3,7 @@
 
 exit 0: the property held on everything explored; exit 1: VIOLATION line(s) printed;
 exit 2: tool error / timeout (never reported as a violation)."""
-import json, os, sys, time, random, traceback
+import json, os, re, sys, time, random, traceback
 
 sys.path.insert(0, os.path.dirname(os.path.abspath(__file__)))
 import vlib
@@ -318,7 +318,115 @@ def check_C15(chk):
                         'spellings is covered by C07']
 
 
-CHECKS = {'C15': check_C15, 'C09': check_C09, 'C08': check_C08, 'C11': check_C11, 'C10': check_C10, 'C01': check_C01, 'C02': check_C02, 'C03': check_C03}
+def check_C18(chk):
+    import inplace, concurrent.futures as cf, threading
+    q = chk.tier == 'quick'
+    chk.level = 'model_checking'
+    chk.rule = ('design: TLC explores JaqInPlace exhaustively (1..3 files x every success/failure pattern x a Kill and a Fail action enabled at every '
+                'step) with invariants Atomic, OnlyAfterSuccess, InOrder, Terminated, ModeWindow, Progress. binding: the real binary is run under strace on '
+                'scenarios (1-3 files, larger/smaller output, read-only and other mode bits, relative/absolute/sub-directory paths, filter error after k '
+                'outputs, parse error mid-file, halt) x faults: none, SIGKILL before the n-th call of every file-system call type (all n), error return of the '
+                'n-th open/write/stat/rename/chmod; the call log is translated to events and validated by TLC (Trace_InPlace) action by action, invariants '
+                'checked at each step, and the file system found afterwards (bytes classified orig/new/other, mode, left-over temp files) must equal the '
+                'specified state. non-trivial = traces with a fault or a failing file.')
+    vlib.build_jaq()
+    for nf in (1, 2, 3):
+        cfg = f'SPECIFICATION Spec\nCONSTANTS\n  NFmc = {nf}\n  MaxW = 2\n' + ''.join(f'INVARIANT {i}\n' for i in
+              ['TypeOK', 'Atomic', 'OnlyAfterSuccess', 'InOrder', 'Terminated', 'ModeWindow', 'Progress']) + 'CHECK_DEADLOCK FALSE\n'
+        run_spec_only(chk, f'design-{nf}', 'JaqInPlace', cfg, workers=4)
+    scs = inplace.scenarios(chk.tier)
+    jobs = []
+    capk = 14 if q else 200
+    for sc in scs:
+        jobs.append((sc, None))
+    # first pass to learn the call counts
+    wd = os.path.join(W, 'inplace')
+    os.makedirs(wd, exist_ok=True)
+    def one(job):
+        sc, inj = job
+        d = os.path.join(wd, f'w{threading.get_ident()}')
+        os.makedirs(d, exist_ok=True)
+        return (sc, inj, inplace.record(vlib.JAQ, sc, d, inj))
+    with cf.ThreadPoolExecutor(max_workers=10) as ex:
+        base = list(ex.map(one, jobs))
+    jobs = []
+    for sc, _, res in base:
+        if res is None:
+            raise ToolError(f'scenario {sc.name} timed out')
+        counts = res[1]
+        for call, cnt in counts.items():
+            if call in ('openat', 'write', 'statx', 'renameat', 'chmod', 'unlink', 'unlinkat', 'newfstatat'):
+                ns = list(range(1, cnt + 1))
+                if len(ns) > capk:
+                    step = len(ns) / capk
+                    ns = sorted(set([ns[int(i * step)] for i in range(capk)] + ns[-3:] + ns[:3]))
+                for n in ns:
+                    jobs.append((sc, f'{call}:signal=SIGKILL:when={n}'))
+        for call, err in (('write', 'ENOSPC'), ('statx', 'EIO'), ('renameat', 'EXDEV'), ('chmod', 'EPERM'), ('openat', 'EMFILE')):
+            cnt = counts.get(call, 0)
+            ns = list(range(1, cnt + 1))
+            if call == 'write' and len(ns) > 6:
+                ns = ns[:3] + [ns[len(ns) // 2]] + ns[-2:]
+            if call == 'openat':
+                ns = ns[-4:]          # the opens of input / temporary files come last
+            for n in ns:
+                jobs.append((sc, f'{call}:error={err}:when={n}'))
+    with cf.ThreadPoolExecutor(max_workers=10) as ex:
+        faulty = list(ex.map(one, jobs))
+    allruns = base + faulty
+    trace = os.path.join(W, 'trace-C18.ndjson')
+    starts = []
+    n = 0
+    with open(trace, 'w') as f:
+        for sc, inj, res in allruns:
+            if res is None:
+                continue
+            evs = res[0]
+            # merge consecutive writes
+            merged = []
+            for e in evs:
+                if e['ev'] == 'Write' and merged and merged[-1]['ev'] == 'Write':
+                    merged[-1]['n'] += 1
+                else:
+                    merged.append(dict(e, n=1) if e['ev'] == 'Write' else e)
+            starts.append((n + 1, sc.name, inj, merged))
+            for e in merged:
+                f.write(json.dumps(e) + '\n')
+                n += 1
+    res = vlib.run_tlc('Trace_InPlace', 'Trace_InPlace.cfg', 'C18-trace', workers=1, timeout=1800, env_extra={'TRACE': trace}, heap='4g')
+    chk.add_tlc(res)
+    out = open(res['out'], errors='replace').read()
+    if '"RESULT"' not in out and not res['invariant_violated']:
+        raise ToolError(f'trace validation did not reach the end of the trace: {res["out"]}')
+    def scenario_of(line):
+        best = None
+        for st in starts:
+            if st[0] <= line:
+                best = st
+        return best
+    rej = [int(m.group(1)) for m in re.finditer(r'<<"REJECTED", (\d+),', out)]
+    for inv in res['invariant_violated']:
+        chk.violation(f'trace-invariant:{inv}', f'invariant {inv} of JaqInPlace violated by a real run (see {res["out"]})', {'tlc_out': res['out']})
+    for line in rej:
+        st = scenario_of(line)
+        ev = None
+        k = line - st[0]
+        if 0 <= k < len(st[3]):
+            ev = st[3][k]
+        chk.violation(f'inplace:{st[1]}:{st[2]}:{json.dumps(ev)}', f'--in-place scenario {st[1]} (fault: {st[2] or "none"}): event {json.dumps(ev)} is not allowed by JaqInPlace at this point; events: {json.dumps(st[3])[:700]}',
+                      {'scenario': st[1], 'inject': st[2], 'events': st[3]})
+    chk.traces = len(starts) - len(set(scenario_of(l)[0] for l in rej))
+    chk.evaluations = len(starts)
+    chk.nontrivial = set(i for i, st in enumerate(starts) if st[2] or 'fail' in st[1] or 'err' in st[1])
+    for st in starts[:2] + [s for s in starts if s[2] and 'SIGKILL' in s[2]][5:7] + [s for s in starts if s[2] and 'error' in s[2]][:2]:
+        chk.sample({'scenario': st[1], 'fault': st[2], 'events': st[3]})
+    chk.extra['scenarios'] = len(scs)
+    chk.extra['traced_runs'] = len(starts)
+    chk.assumptions += ['strace sees every file-system effect of the process (no io_uring); SIGKILL is delivered on entry of the n-th call of a type, i.e. '
+                        'immediately before it takes effect; power-failure durability (fsync ordering) is not modelled']
+
+
+CHECKS = {'C18': check_C18, 'C15': check_C15, 'C09': check_C09, 'C08': check_C08, 'C11': check_C11, 'C10': check_C10, 'C01': check_C01, 'C02': check_C02, 'C03': check_C03}
 
 
 def main():
